@@ -124,7 +124,7 @@ Proof.
   destruct fl as [[leaves sx]|].
   2:{ inversion H; subst. eapply sb_trans; [exact B2 | apply sb_set_top]. }
   destruct (top_frame (with_flat s1 false)) as [m tm] eqn:Etf.
-  destruct (match sopt with None => SOk tm | Some str => structure_step (read_structure str) sx tm end) as [tm'| |].
+  destruct (match sopt with None => StOk tm | Some str => structure_step (read_structure str) sx tm end) as [tm'| |].
   - destruct (leaf_loop (check_fn st l) sopt leaves 0 (set_top (with_flat s1 false) (fst (m, tm), tm'))) as [vd4 s4] eqn:El.
     assert (B4 : same_below s s4) by (eapply sb_trans; [exact B2 | eapply sb_trans; [apply sb_set_top | eapply leaf_loop_frame; eauto]]).
     assert (B5 : same_below s (with_path s4 None)) by (eapply sb_trans; [exact B4 | apply sb_with_path]).
@@ -190,7 +190,7 @@ Proof.
     destruct fl as [[leaves sx]|].
     2:{ inversion H; subst. apply set_top_restores. exact B2. }
     destruct (top_frame (with_flat s1 false)) as [m tm] eqn:Etf.
-    destruct (match sopt with None => SOk tm | Some str => structure_step (read_structure str) sx tm end) as [tm'| |].
+    destruct (match sopt with None => StOk tm | Some str => structure_step (read_structure str) sx tm end) as [tm'| |].
     - destruct (leaf_loop (check_fn st l) sopt leaves 0 (set_top (with_flat s1 false) (fst (m, tm), tm'))) as [vd4 s4] eqn:El.
       assert (B4 : same_below s s4) by (eapply sb_trans; [exact B2 | eapply sb_trans; [apply sb_set_top | eapply leaf_loop_frame; eauto]]).
       assert (B5 : same_below s (with_path s4 None)) by (eapply sb_trans; [exact B4 | apply sb_with_path]).
@@ -213,7 +213,7 @@ Proof.
   destruct (flatten_with (flat_fn st l) x (with_flat s true)) as [[fl s1] e].
   destruct fl as [[leaves sx]|]; [|cbn; now rewrite set_top_flat].
   destruct (top_frame (with_flat s1 false)) as [m tm].
-  destruct (match sopt with None => SOk tm | Some str => structure_step (read_structure str) sx tm end) as [tm'| |]; try (cbn; now rewrite set_top_flat).
+  destruct (match sopt with None => StOk tm | Some str => structure_step (read_structure str) sx tm end) as [tm'| |]; try (cbn; now rewrite set_top_flat).
 Abort.
 
 End F.
